@@ -173,8 +173,9 @@ Cb ==
                                  mid |-> Mid, mver |-> -1, client |-> Client]>>
                          ELSE <<>>
                IN /\ s' = Step(s, [ev |-> "cb", reqs |-> <<q>>, pkgs |-> pk], <<>>)
-                  /\ tainted' = IF q.kind = "PLACE" /\ v = "ACCEPT" /\ Has(s.trd, q.t) /\ s.trd[q.t].status = "COMPLETE"
-                                THEN tainted \cup {q.t} ELSE tainted
+                  /\ tainted' = LET qq == NormReq(s, q) IN
+                                IF q.kind = "PLACE" /\ v = "ACCEPT" /\ Has(s.trd, qq.t) /\ s.trd[qq.t].status = "COMPLETE"
+                                THEN tainted \cup {qq.t} ELSE tainted
           /\ nreq' = nreq + 1
     /\ pc' = "idle"
 
